@@ -44,6 +44,10 @@ func runC12(l *core.Ledger) {
 	c12X4(l, r)
 	c12X5(l, r)
 	l.With(map[string]string{"C07-E4": "C12-X6"}, func() { c07E4(l, r) })
+	// the per-write watcher goroutine ends with the write (close(done) on every exit of
+	// sendMsg), not only with the request's context - which may never end and is not
+	// touched by Close
+	l.With(map[string]string{"C08-B3": "C12-X2"}, func() { c08B3x(l, r, false) })
 	c12X7(l, r)
 }
 
